@@ -77,7 +77,7 @@ def build(ctx, group="hql", tier="quick", only=None):
     typ = pl("type", ["int", "varchar", "DECIMAL", "Text", "bigint", "num_9"])
     val = pl("val", ["parquet", "InnoDB", "utf8", "Orc", "ts_1", "PAGE"])
     val2 = pl("val2", ["x", "y1", "Zed", "q_2", "something", "V2"])
-    s1 = lm.custom("'s1'", ["'a'", "'Hello'", "'/path/x'", "'it_s'", "'k.1'", "'A b'"], "STR")
+    s1 = lm.custom("'s1'", ["'a'", "'Hello'", "'/path/x'", "'it_s'", "'k.1'", "'p = q . r'"], "STR")
     s2 = lm.custom("'s2'", ["'b'", "'World'", "'/other/y'", "'v_s'", "'v.2'", "'C d'"], "STR")
     # body: CREATE TABLE t ( a type NOT NULL , b type ( n ) )
     a = s.words(s.start, "head", [("KW", "CREATE"), ("KW", "TABLE"), (t, "name")])
